@@ -279,7 +279,7 @@ fn run_git(cfg: &Cfg, out: &mut Out, g0: &Gen) {
     let mut book = IdBook { by_id: HashMap::new(), by_value: HashMap::new() };
     let mut r = cfg.rng(171);
     let fix = if g0.subsecond_author { 1 } else { 0 };
-    let n = cfg.n(1000, 20_000);
+    let n = cfg.n(800, 20_000);
     let plain = Gen { subsecond_author: g0.subsecond_author, hostile: false };
     let planted = planted_known(&mut r, &plain, &pools, (n + 1) * 4, "git");
     for case in 0..n + planted.len() as u64 {
@@ -380,7 +380,7 @@ fn run_simple(cfg: &Cfg, out: &mut Out) {
     let mut r = cfg.rng(172);
     let mut prior: Vec<CommitId> = vec![];
     let mut inputs: Vec<backend::Commit> = vec![];
-    let n = cfg.n(2000, 40_000);
+    let n = cfg.n(1600, 40_000);
     let planted = planted_known(&mut r, &Gen { subsecond_author: true, hostile: false }, &pools, 1000, "simple");
     for case in 0..n + planted.len() as u64 {
         let planted_case = case.checked_sub(n).map(|i| planted[i as usize].clone());
